@@ -200,6 +200,13 @@ static void check_transition(const ClassAdapter<T>& A, PoolState<T>& P, const PO
     std::string want = call_mut(twin_of(A, o.m), *sa, sb.get());
     // descriptions (constraint/generator lists...) legitimately depend on the representation: only
     // compare atomic answers (Booleans, numbers, exception classes)
+    // ABSOLUTE oracle: an operation that found an inconsistent temporary by itself returns "INVARIANT:<clause>|<what>";
+    // this is reported whatever the rebuilt twin (which goes through the same library code) says
+    if (ret.compare(0, 10, "INVARIANT:") == 0) {
+      size_t bar = ret.find('|'); std::string cl = ret.substr(10, bar == std::string::npos ? std::string::npos : bar - 10);
+      if (violcap().admit(A.name + "|marker|" + A.muts[o.m].name + cl))
+        report_violation(site, cl, trig, inj, ret.substr(bar == std::string::npos ? 10 : bar + 1, 400), "no inconsistent temporary");
+    }
     bool atomic = ret.find(' ') == std::string::npos && want.find(' ') == std::string::npos && ret.find(',') == std::string::npos && want.find(',') == std::string::npos;
     // a precondition exception that is raised in one lazy state and not in another (Grid::add_constraint with an
     // inequality throws unless the grid is already MARKED empty) is not a value-semantics matter: the receiver was
@@ -221,6 +228,13 @@ static void check_transition(const ClassAdapter<T>& A, PoolState<T>& P, const PO
     if (!okk && ok_sh) { if (violcap().admit(A.name + "|ok|" + site + trig)) report_violation(site, "invariant:OK()-of-slot", trig, inj, "slot " + std::to_string(i) + " OK() false", "OK() true"); continue; }
     bool eq = false; try { eq = A.equal(*P.slot[i], *sh); } catch (...) {}
     count(CNT_CHECKS);
+#if VF_GROUP >= 7
+    if (!x13::eq_alarm().empty()) {      // ABSOLUTE oracle: == / != must agree with mutual containment (groups 7-11, simple domains)
+      if (violcap().admit(A.name + "|eqalarm|" + site + trig))
+        report_violation(site, "equality:disagrees-with-mutual-containment", trig, inj, ("slot " + std::to_string(i) + " vs its rebuilt twin: " + x13::eq_alarm()).substr(0, 400), "operator== <=> mutual containment");
+      x13::eq_alarm().clear();
+    }
+#endif
     if (!eq) {
       std::string clause = mutated ? (aliased ? "alias:result!=copy" : "value:result!=rebuilt") : (o.kind == K_MUT && i == o.b ? "const-arg-changed" : "copy-independence:other-slot-changed");
       if (violcap().admit(A.name + "|" + clause + "|" + site + trig))
@@ -427,7 +441,7 @@ int main(int argc, char** argv) {
     run_class(mip_adapter(), depth, is);
     run_class(pip_adapter(), depth, is); }
 #elif VF_GROUP == 7
-  { const int ix[3] = {7, 8, 1};      // square (both minimized + pending constraint), segment (+ pending generator), triangle
+  { const int ix[3] = {9, 8, 10};     // square sorted by == + pending vertex that sorts first, segment (both minimized + pending generator), pentagon sorted by == + pending constraint
     run_class(x13::domain_alias_adapter<PPL::C_Polyhedron>("C_Polyhedron (aliased arguments, recycling)"), depth, ix);
     run_class(x13::domain_alias_adapter<PPL::NNC_Polyhedron>("NNC_Polyhedron (aliased arguments, recycling)"), depth, ix); }
 #elif VF_GROUP == 8
